@@ -263,9 +263,6 @@ func (s *hsys) Apply(i int) (string, string) {
 }
 
 func histories(w *hc.W) {
-	if *hc.Shard != 0 {
-		return
-	}
 	for _, isX11 := range []bool{false, true} {
 		var ops []hop
 		for b := 0; b < 3; b++ {
@@ -297,6 +294,8 @@ func histories(w *hc.W) {
 				shared.p.Reset()
 				return &hsys{r: shared, ops: ops, x11: isX11}
 			},
+			// the histories are dealt to the shards below depth 2 and the soft deadline is honoured
+			Mine: hc.Mine, Shard0: *hc.Shard == 0, ShardDepth: 2, Stop: w.Expired,
 			OnViolation: func(sig, desc string, hist []int) {
 				w.Violation(sig, name+": "+desc, map[string]interface{}{"scenario": name, "ops": hist})
 			},
@@ -308,6 +307,9 @@ func histories(w *hc.W) {
 		w.R.Transitions += st.Transitions
 		w.R.Executions += st.Transitions
 		w.R.Scenarios[name] = st.Summary()
+		if st.Stopped {
+			w.NotExhaustive(name + " stopped early")
+		}
 	}
 }
 
@@ -356,6 +358,10 @@ func batches(w *hc.W) {
 		)
 	}
 	items = append(items, bitem{name: "key-3", bytes: []byte("3"), key: '3'}, bitem{name: "key-M", bytes: []byte("M"), key: 'M'})
+	// the Esc key pressed just before a report arrives: it is its own key event and lends the
+	// report no modifier (the report carries its own); only composed in front of a report
+	items = append(items, bitem{name: "esc-key", bytes: []byte{0x1b}, key: 0x1b})
+	escIdx := len(items) - 1
 	maxLen := 3
 	if hc.Thorough() {
 		maxLen = 4
@@ -368,21 +374,44 @@ func batches(w *hc.W) {
 			idx[i] = 0
 		}
 		for {
+			skipCase := false
+			for j, k := range idx[:n] {
+				if k == escIdx && (j == n-1 || items[idx[j+1]].key != 0) {
+					skipCase = true // Esc + key is Alt+key, a trailing Esc waits for its timeout
+				}
+			}
 			r.p.Reset()
 			var st ri.MouseState
 			var all []byte
 			var names []string
 			for _, k := range idx[:n] {
+				if skipCase {
+					break
+				}
 				all = append(all, items[k].bytes...)
 				names = append(names, items[k].name)
 			}
-			got := r.feed(all)
-			cases++
-			ok := len(got) == n
+			var got []ri.Ev
+			if !skipCase {
+				got = r.feed(all)
+				cases++
+			}
+			ok := len(got) == n || skipCase
 			firstBad := ""
 			var want []string
 			for j, k := range idx[:n] {
 				it := items[k]
+				if skipCase {
+					break
+				}
+				if it.key == 0x1b {
+					want = append(want, "Key(Esc)")
+					if (ok || len(got) != n) && firstBad == "" && !(j < len(got) && got[j].Kind == "key" && got[j].Key == tcell.KeyEscape && got[j].Mod == 0) {
+						ok = false
+						firstBad = it.name
+					}
+					continue
+				}
 				if it.key != 0 {
 					want = append(want, fmt.Sprintf("Rune(%q)", it.key))
 					if (ok || len(got) != n) && firstBad == "" && !(j < len(got) && got[j].Kind == "key" && got[j].Key == tcell.KeyRune && got[j].Rune == it.key && got[j].Mod == 0) {
@@ -418,5 +447,5 @@ func batches(w *hc.W) {
 		}
 	}
 	w.R.Evaluations += cases
-	w.R.Scenarios["batches"] = fmt.Sprintf("%d sequences of 2..%d items (5 reports x 2 introducers + 2 keys) in one read", cases, maxLen)
+	w.R.Scenarios["batches"] = fmt.Sprintf("%d sequences of 2..%d items (5 reports x 2 introducers + 2 keys + the Esc key in front of a report) in one read", cases, maxLen)
 }
